@@ -45,6 +45,10 @@ def fixed(add):
         add([("render", Sx("r"), (("cnt", I(1), I(3)), "v"), []), ("text", "|after")], PP, why)
         add([("for", "x", arr, None, None, False, [("render", Sx("r"), (("cnt", I(1), I(3)), "v"), []), ("text", ";")], None), ("text", "|after")], PP, why)
         add([("for", "x", arr, None, None, False, [("render", Sx("r"), None, [("v", I(2))]), ("text", ";")], None), ("text", "|after")], PP, why)
+    # the for-form evaluates its arguments again for every item: an argument that names a counter sees the partial's increments
+    RI = [("r", [("inc", "c"), ("text", "<"), ("out", (var("b"), [])), ("text", ">")])]
+    add([("inc", "c"), ("render", Sx("r"), (("cnt", I(1), I(3)), "v"), [("b", var("c"))]), ("text", "|")] + reads_all(), RI, "render-for-args-per-item")
+    add([("inc", "c"), ("render", Sx("r"), (arr, "v"), [("b", var("c")), ("a", var("c"))]), ("text", "|")] + reads_all(), RI, "render-for-args-per-item")
     RF = [("r", [("text", "("), ("out", (var("forloop", "index"), [])), ("text", "/"), ("out", (var("forloop", "length"), [])), ("text", " "),
                  ("out", (var("forloop", "first"), [])), ("out", (var("forloop", "last"), [])), ("text", ":"), ("out", (var("v"), [])), ("text", ")")])]
     for n in range(0, 4):
